@@ -340,10 +340,10 @@ def run(tier, seed):
     res = Result("C07", tier, seed)
     work = Work("C07")
     try:
-        ok, blog = coq_build(["props/C07.vo", "corr/C07corr.vo"])
+        ok, blog = coq_build(["props/C07.vo", "props/C07link.vo", "corr/C07corr.vo", "corr/C07expect.vo"])
         if not ok and "No rule to make target" in blog:     # a file of another build vanished under make: once more
-            ok, blog = coq_build(["props/C07.vo", "corr/C07corr.vo"])
-        proofs_ok, pa = proof_obligations(work, res, "C07.v", ok, blog)
+            ok, blog = coq_build(["props/C07.vo", "props/C07link.vo", "corr/C07corr.vo", "corr/C07expect.vo"])
+        proofs_ok, pa = proof_obligations_multi(work, res, ["C07.v", "C07link.v"], ok, blog)
         gate = coq_gate()
         if gate:
             proofs_ok = False
